@@ -47,6 +47,10 @@ class LinkPair:
             self.rx.ack = True
         if not c.get("aa0", True) and not tx_lite:
             self.tx.set_auto_ack(False, 0)
+        if c.get("rx_p0_static") and not rx_lite:
+            # per-pipe payload-length modes: the receiver's pipe 0 is static, the pipe in use stays dynamic
+            self.rx.set_dynamic_payloads(False, 0)
+            self.rx.set_payload_length(c.get("pl", 32), 0)
         if pipe >= 2:
             self.rx.open_rx_pipe(1, rx_address(1, aw))
         self.rx.open_rx_pipe(pipe, rx_address(pipe, aw) if pipe < 2 else rx_address(pipe, aw)[:1])
